@@ -20,7 +20,8 @@ static void one_case(const u8* content, size_t n, int thorough)
     static const int levels[] = {0, 0, 1, 3, 9, 12, -2};
     memset(&prefs, 0, sizeof prefs);
     if (!useNull) { prefs.frameInfo.blockSizeID = (LZ4F_blockSizeID_t)(rndp(40) ? 0 : 4 + rndn(n > 300000 ? 4 : 2)); prefs.frameInfo.blockMode = (LZ4F_blockMode_t)rndn(2); prefs.frameInfo.contentChecksumFlag = (LZ4F_contentChecksum_t)rndn(2);
-        prefs.frameInfo.blockChecksumFlag = (LZ4F_blockChecksum_t)rndn(2); prefs.frameInfo.contentSize = rndp(30) ? n : 0; prefs.compressionLevel = levels[rndn(7)]; prefs.autoFlush = rndp(30); }
+        prefs.frameInfo.blockChecksumFlag = (LZ4F_blockChecksum_t)rndn(2); prefs.frameInfo.contentSize = rndp(30) ? n : 0; prefs.compressionLevel = levels[rndn(7)]; prefs.autoFlush = rndp(30);
+        prefs.frameInfo.dictID = rndp(35) ? 1 + rndn(0x7fffffff) : 0;   /* every header size 7..19 */ }
     rec_begin(&r, 3); rec_int(&r, 0);
     rec_int(&r, prefs.frameInfo.blockSizeID); rec_int(&r, prefs.frameInfo.blockMode); rec_int(&r, prefs.frameInfo.contentChecksumFlag); rec_int(&r, prefs.frameInfo.blockChecksumFlag);
     rec_int(&r, (long long)prefs.frameInfo.contentSize); rec_int(&r, prefs.frameInfo.dictID); rec_int(&r, prefs.compressionLevel); rec_int(&r, prefs.autoFlush); rec_int(&r, prefs.favorDecSpeed);
